@@ -181,6 +181,26 @@ def _is_symbol(tok, spelling):
     return isinstance(tok, (Punctuator, Operator)) and tok.token == spelling
 
 
+def _spelling(tok):
+    """
+    Return the source spelling of a token: a character or string constant
+    keeps its quotes (and prefix), which Token.token omits.
+    """
+    if isinstance(tok, CharacterConstant):
+        return f"{tok.prefix}'{tok.token}'"
+    if isinstance(tok, StringConstant):
+        return f'"{tok.token}"'
+    return str(tok.token)
+
+
+def _parameter_name(tok):
+    """
+    Return the text of an identifier token, which may name a macro
+    parameter; None for any other token (a constant spelled like one).
+    """
+    return tok.token if isinstance(tok, Identifier) else None
+
+
 class Lexer:
     """
     A lexer for the C preprocessor grammar.
@@ -1438,7 +1458,7 @@ class Macro:
             tok = self.replacement[idx]
             if _is_symbol(tok, "##"):
                 last = res_tokens.pop()
-                arg_idx = self.which_arg(last.token)
+                arg_idx = self.which_arg(_parameter_name(last))
                 if arg_idx != -1:
                     idx += 1
                     res_tokens.append(last)
@@ -1447,7 +1467,7 @@ class Macro:
                     continue
                 idx += 1
                 nexttok = self.replacement[idx]
-                arg_idx = self.which_arg(nexttok.token)
+                arg_idx = self.which_arg(_parameter_name(nexttok))
                 if arg_idx != -1:
                     idx += 1
                     res_tokens.append(last)
@@ -1455,7 +1475,7 @@ class Macro:
                     res_tokens.append(nexttok)
                     self.has_strcat = True
                     continue
-                lex = Lexer(last.token + nexttok.token)
+                lex = Lexer(_spelling(last) + _spelling(nexttok))
                 tok = lex.tokenize_one()
                 if tok is None:
                     raise ParseError(
@@ -1588,7 +1608,7 @@ class MacroFunction(Macro):
                     idx += 1
                     nexttok = self.replacement[idx]
                     try:
-                        argidx = self.args.index(nexttok.token)
+                        argidx = self.args.index(_parameter_name(nexttok))
                         nexttok = input_args[argidx][0]  # Unexpanded arg
                     except ValueError:
                         nexttok = [nexttok]
@@ -1600,7 +1620,7 @@ class MacroFunction(Macro):
                     prev_white = last.prev_white
                     if not last_cat:
                         try:
-                            argidx = self.args.index(last.token)
+                            argidx = self.args.index(_parameter_name(last))
                             last = input_args[argidx][0]  # Unexpanded arg
                         except ValueError:
                             last = [last]
@@ -1609,7 +1629,7 @@ class MacroFunction(Macro):
                     idx += 1
                     nexttok = self.replacement[idx]
                     try:
-                        argidx = self.args.index(nexttok.token)
+                        argidx = self.args.index(_parameter_name(nexttok))
                         nexttok = input_args[argidx][0]  # Unexpanded arg
                     except ValueError:
                         nexttok = [nexttok]
@@ -1618,7 +1638,9 @@ class MacroFunction(Macro):
                         # operand unchanged.
                         res_tokens.extend(last)
                     elif len(last) > 0:
-                        lex = Lexer(last[-1].token + nexttok[0].token)
+                        lex = Lexer(
+                            _spelling(last[-1]) + _spelling(nexttok[0]),
+                        )
                         tok = lex.tokenize_one()
                         if tok is None:
                             raise ParseError(
@@ -1644,7 +1666,7 @@ class MacroFunction(Macro):
                         )
                     nexttok = self.replacement[idx]
                     try:
-                        argidx = self.args.index(nexttok.token)
+                        argidx = self.args.index(_parameter_name(nexttok))
                         tok = input_args[argidx][0]  # Unexpanded arg
                     except ValueError:
                         raise ParseError(
